@@ -553,6 +553,71 @@ def _value_codecs(c, prog):
     c.inst("R8.schnorr-sig-writer", "serialize = SchnorrSig::to_vec", "schnorr::SchnorrSig::to_vec(arg1)" in show(Prov(fse.body).local(0)), show(Prov(fse.body).local(0))[:120], fse.where(), fse.path)
 
 
+def _value_pairs(c, prog):
+    """R9: the value codecs of the PSET layer (pset::serialize::{Serialize, Deserialize}) come in inverse pairs of one kind per
+    type: both consensus (encode::serialize / encode::deserialize), both the 32/20 raw hash bytes (to_byte_array / from_byte_array
+    of the same type), both the dependency's own byte form (X::serialize / X::from_slice of the same X), both the identity on
+    bytes, or a consensus form wrapped in the same view in both directions. Types with a composite hand-written form are decided
+    by R6/R7/R8 and listed here as such."""
+    SER, DE = {}, {}
+    for n in sorted(prog.fns):
+        m = re.match(r"^<(.+) as pset::serialize::(Serialize|Deserialize)>::(?:de)?serialize$", n)
+        if m:
+            (SER if m.group(2) == "Serialize" else DE)[m.group(1)] = n
+    ELSEWHERE = {"bitcoin::PublicKey", "schnorr::SchnorrSig", "pset::map::output::TapTree", "encode::VarInt", "confidential::Asset", "confidential::Value",
+                 "bitcoin::Transaction"}
+    IDXF = r"core::slice::index::<impl std::ops::Index<I> for \[T\]>::index\(arg1, std::ops::RangeFull::RangeFull\{\}\)"
+
+    def kind_s(t):
+        if t == "encode::serialize(arg1)":
+            return ("consensus", None)
+        m = re.match(r"^(.+)::to_byte_array\(arg1\)$", t)
+        if m:
+            return ("hash-bytes", m.group(1))
+        m = re.match(r"^(.+)::serialize\(arg1\)$", t)
+        if m:
+            return ("own-bytes", m.group(1))
+        if t in ("arg1", "script::Script::to_bytes(arg1)"):
+            return ("identity", None)
+        m = re.match(r"^encode::serialize\((.+)\(arg1\)\)$", t)
+        if m:
+            return ("wrapped", m.group(1))
+        return ("?", t[:80])
+
+    def kind_d(t):
+        if re.match(r"^encode::deserialize\((arg1|%s)\)$" % IDXF, t):
+            return ("consensus", None)
+        m = re.match(r"^std::result::Result::map\(encode::deserialize\(arg1\), fnitem\('(.+)::from_byte_array',\)\)$", t)
+        if m:
+            return ("hash-bytes", m.group(1))
+        m = re.search(r"(?:^|Ok\{)((?:[A-Za-z_0-9]+::)+[A-Za-z_0-9]+)::from_slice\(arg1\)", t)
+        if m and "encode::deserialize" not in t:
+            return ("own-bytes", m.group(1))
+        if t == "std::result::Result::Ok{arg1}":
+            return ("identity", None)
+        m = re.search(r"((?:[A-Za-z_0-9]+::)+[A-Za-z_0-9]+)\(encode::deserialize\(arg1\)\)", t)
+        if m:
+            return ("wrapped", m.group(1))
+        return ("?", t[:80])
+    INV = {"confidential::AssetBlindingFactor::into_inner": "confidential::AssetBlindingFactor::from_slice",
+           "pset::map::input::PsbtSighashType::to_u32": "pset::map::input::PsbtSighashType::from_u32"}
+    n = 0
+    for ty in sorted(set(SER) & set(DE)):
+        if ty in ELSEWHERE or ty.startswith("("):
+            continue
+        fs_, fd_ = prog.fn(SER[ty]), prog.fn(DE[ty])
+        ks, kd = kind_s(show(Prov(fs_.body).local(0), -30)), kind_d(show(Prov(fd_.body).local(0), -30))
+        if ks[0] == "wrapped":
+            ok = kd[0] == "wrapped" and INV.get(ks[1]) == kd[1]
+        elif ks == ("consensus", None) and kd[0] == "wrapped":
+            ok = ty == "secp256k1_zkp::Tweak" and kd[1] == "secp256k1_zkp::Tweak::from_slice"
+        else:
+            ok = ks[0] != "?" and ks == kd
+        n += 1
+        c.inst("R9.value-pair", ty, ok, "writer is %s, reader is %s" % (ks, kd), fs_.where(), SER[ty])
+    c.floor("R9.value-pair", 28, "value types with a simple paired form on the pinned tree")
+
+
 def run(c, prog, ctx):
     c.explanation = (
         "Static decision of the structural clauses of C07: (R1) the key-type tables extracted from Map::get_pairs (writer) and "
@@ -572,3 +637,4 @@ def run(c, prog, ctx):
     _taptree(c, prog)
     _elip(c, prog)
     _value_codecs(c, prog)
+    _value_pairs(c, prog)
